@@ -466,6 +466,14 @@ def gen_program(rng, tier="quick", allow_hazard=False, nsteps=None, init_rows=No
                     add_obs(w, "tolist")        # inspect the dependents first: afterwards the write is harmless
             elif deps:
                 hazard = True
+            if kind == "assign" and rng.random() < 0.07 and n:
+                # the array itself as the value of a non-identity target of the same shape: x[:, ::-1] = x
+                materialise(u)
+                old_ = [list(r) for r in U]
+                for i_, r_ in enumerate(old_):
+                    U[i_][:] = r_[::-1]
+                steps.append({"op": "assign", "u": u, "rs": slice(None), "cs": slice(None, None, -1), "has_cs": True, "vk": "self"})
+                continue
             if kind == "maskassign":
                 c, val = rng.randint(-20, 30), rng.randint(100, 999)
                 materialise(u)
@@ -598,6 +606,8 @@ def run_model(steps):
                 vals = [st["col"][k] for k, r in enumerate(cells) for _ in r]
             elif vk == "ragged":
                 vals = [x for r in st["rows"] for x in r]
+            elif vk == "self":
+                vals = [x for r in U for x in r]          # the values the array held before the assignment started
             else:
                 vals = [x for r in env[st["w"]] for x in r]
             for (i, j), x in zip(flat, vals):
@@ -731,6 +741,8 @@ def run_lib(steps, mode="L", read_plan=None, purity=False, trace=None):
                     value = np.array(st["col"], dtype=DT).reshape(-1, 1)
                 elif vk == "ragged":
                     value = RA(np.array([x for r in st["rows"] for x in r], dtype=DT), [len(r) for r in st["rows"]])
+                elif vk == "self":
+                    value = tgt
                 else:
                     value = env[st["w"]]
                 tgt[idx] = value
